@@ -13,7 +13,8 @@ EXPLANATION = (
 DECIDED = ["R06a AnyStorage delegation table (10 methods x 3 variants, resolved callees)",
            "R06b storage-generic database: concrete storage types confined to storage/* and DbAny::try_new_*",
            "R05d memory-mapped mirror (shared with C05)",
-           "R23b cursor discipline of the file-only variant (shared with C23)"]
+           "R23b cursor discipline of the file-only variant (shared with C23)",
+           "R23a no interior-mutable state in the storage variants beyond the cursor mutex `Mutex<()>` (shared with C23)"]
 UNDECIDED = ["agreement of the three primitive StorageData impls on write-past-end / short-read error behaviour "
              "(arithmetic and error-vs-panic differences; the panic side is C07)",
              "equality of query results (needs execution)"]
@@ -191,4 +192,7 @@ def run(ctx):
     # from the other variants as soon as two readers overlap (R23b)
     from rules import C23
     C23.cursor_rule(ctx)
+    # state that `&self` reads of one variant keep and change (a read cache, a remembered handle position behind the
+    # cursor mutex) is exactly how the file-only variant starts to answer differently from the others (R23a)
+    C23.interior_mutability_rule(ctx)
     return 0
